@@ -328,14 +328,21 @@ Definition start_headers (P : params) (prev : hdict) (q : sreq) : hdict :=
 Definition headers_after (P : params) (k : tkind) (c : creds) (prev : hdict) (q : sreq) : hdict :=
   writeback (add_credentials P k c (start_headers P prev q)).
 
-(* https.HttpAuthenticated.addcredentials (since 2ac69bb):
-     self.pm = urllib.request.HTTPPasswordMgrWithDefaultRealm()      (a fresh one for every request)
-     if None not in credentials: self.pm.add_password(None, request.url, u, p)
+(* https.HttpAuthenticated (since 7b69e23) owns ONE password manager, _CurrentCredentials(self),
+   a subclass of urllib's HTTPPasswordMgrWithDefaultRealm:
+     addcredentials():  if None not in credentials: self.pm.add_password(None, request.url, u, p)
+     find_user_password(realm, authuri):
+         found = <urllib's lookup>;  if found == (None, None): return found
+         credentials = self.transport.credentials()        (username, password configured NOW)
+         if None in credentials: return None, None
+         return credentials
    urllib: add_password stores under the reduced URI (here: the path; one host, no query) in a
-   dict - the same path is overwritten in place, a new one appended; find_user_password returns
-   the FIRST entry, in insertion order, that is the request path or a path prefix of it.
-   (Before 2ac69bb one manager lived as long as the transport and collected an entry per URL:
-   pm_after_accumulating below, kept as the regression witness.) *)
+   dict - the same path is overwritten in place, a new one appended; its lookup finds the FIRST
+   entry, in insertion order, that is the request path or a path prefix of it.  So the manager's
+   state is the set of URLs registered while credentials were set; what it stores with them is
+   never handed out - the answer is the transport's current pair.
+   (Before 2ac69bb the stored pair of the first matching entry was handed out: pm_find alone,
+   kept with pm_after_accumulating as the regression witness.) *)
 Definition pmgr := list (str * (str * str)).
 Fixpoint pm_add (path u p : str) (pm : pmgr) : pmgr :=
   match pm with
@@ -351,11 +358,17 @@ Fixpoint pm_find (path : str) (pm : pmgr) : option (str * str) :=
   | [] => None
   | (base, up) :: r => if is_suburi base path then Some up else pm_find path r
   end.
-(* the manager a send works with; pm = whatever an earlier send left (no longer looked at) *)
+(* addcredentials: the request URL is registered when both credentials are set *)
 Definition pm_after (k : tkind) (c : creds) (pm : pmgr) (q : sreq) : pmgr :=
   match k, c with
-  | TChallenge, (Some u, Some p) => [(q_path q, (u, p))]
-  | _, _ => []
+  | TChallenge, (Some u, Some p) => pm_add (q_path q) u p pm
+  | _, _ => pm
+  end.
+(* _CurrentCredentials.find_user_password; c_now = the transport's credentials at lookup time *)
+Definition pm_lookup (pm : pmgr) (path : str) (c_now : creds) : option (str * str) :=
+  match pm_find path pm with
+  | None => None
+  | Some _ => match c_now with (Some u, Some p) => Some (u, p) | _ => None end
   end.
 (* the manager before 2ac69bb *)
 Definition pm_after_accumulating (k : tkind) (c : creds) (pm : pmgr) (q : sreq) : pmgr :=
@@ -382,11 +395,12 @@ Definition model_step (P : params) (k : tkind) (c : creds) (j : jar) (prev : hdi
   | None => answered 1 u2
   | Some cb =>
       if has_key l_authorization u2 then answered 1 u2
-      else match k, pm_find (q_path q) (pm_after k c pm q) with
+      else match k, pm_lookup (pm_after k c pm q) (q_path q) c with
            | TChallenge, Some (u, pw) =>
                (* urllib.request.HTTPBasicAuthHandler repeats the request with
                   "Basic " + b64encode("%s:%s" % (user, pw)) (standard alphabet), user and pw
-                  being what the password manager FINDS for the URL *)
+                  being what the password manager answers for the URL; in a (sequential) send
+                  the lookup sees the credentials addcredentials saw a moment before *)
                answered 2 (dict_set l_authorization (authorization std_alphabet u pw) u2)
            | _, _ => (mkPred 1 u2 cks w (RTransportError 401 cb), j)
            end
